@@ -135,7 +135,11 @@ def gen_lines(rng, n: int) -> typing.List[bytes]:
             b"/a\t+", b"/a\t!", b"/a\t$", b"/a\t", b"/a\t\t", b"/a\tq", b"/a\tq\t+", b"/a\tq\t!", b"/a\tq\t$x",
             b"/a\tq\t", b"/a\t+\tq", b"/a\t \t+", b"/a\t+\t+\t+", b"\t+", b"\t", b"\t\t\t", b"/a\t +", b"/a\t+ ",
             b"/a\t!!", b"/a\t$$", b"/a\t-", b"/a\tq\t-", b"/a\t\xff", b"/a\t+\xff",
-            b"\x16\x03\x01", b"\x00", b"\xff\xfe", b"/" + b"x" * 500]
+            b"\x16\x03\x01", b"\x00", b"\xff\xfe", b"/" + b"x" * 500,
+            # third tokens that a lenient integer parser takes for a number, but that are no digit strings
+            b"h /p +1", b"h /p -0", b"h /p 1_0", b"h /p \x0c7", b"h /p \x0b12", b"h /p 0x10", b"h /p 1e3", b"h /p 1.0", b"h /p 0b1",
+            b"h /p ++1", b"h /p 1+", b"h /p _1", b"h /p 1_", b"h /p 00", b"h /p 007", b"h /p " + b"9" * 4400, b"h /p " + b"1" * 30,
+            b"notes /2024 +1", b"notes /2024 1_0", b"h /p \xef\xbc\x91", b"h /p \xc2\xb2"]
     out = list(base)
     shapes = [b"GET %s HTTP/1.0", b"HEAD %s HTTP/1.1", b"gemini://h%s", b"h %s 0", b"h %s 12", b"%s", b"%s\t+",
               b"%s\t!", b"%s\t$", b"%s\tq\t+", b"%s\tquery"]
